@@ -104,9 +104,9 @@ def combine(libs, choose=None):
 
     Types with equal non-empty true name (and non-empty name) from different
     libraries are identified.  The merged node is one candidate in its entirety:
-    a fully defined candidate beats one that is not; among equally qualified
-    candidates `choose(true_name, candidates)` picks (default: the first), where
-    candidates = [(lib position, record)].  The global flag is the union.
+    the candidate of best rank (see rank() below; independent of the load order);
+    among candidates of exactly equal rank `choose(true_name, candidates)` picks
+    (default: the first), where candidates = [(lib position, record)].  The global flag is the union.
     Returns (Combined, classes) with classes = {true_name: [(gidx, fully_defined, is_global)]}."""
     c = Combined()
     gmap = {}
@@ -134,11 +134,23 @@ def combine(libs, choose=None):
     for tn, members in classes.items():
         if len(members) < 2:
             continue
-        full = [m for m in members if c.recs["types"][m]["flags"] & F.TF_FULLY_DEFINED]
-        pool = full if full else members
+        # The winner is a function of the set of definitions, not of the load order ("in any order"):
+        # fully defined beats not fully defined; of fully defined ones, one that is itself global beats one that is not;
+        # of definitions that are not fully defined, one that records base classes beats one that does not, then one
+        # marked unpublished beats a bare reference; remaining ties go to the smaller (library name, module name).
+        def rank(m):
+            r = c.recs["types"][m]
+            fd = bool(r["flags"] & F.TF_FULLY_DEFINED)
+            own = c.owner[("types", m)]
+            if fd:
+                return (0, 0 if r["flags"] & F.TF_GLOBAL else 1, 0, own[0] or b"", own[1] or b"")
+            return (1, 0 if r["derivations"] else 1, 0 if r["flags"] & F.TF_UNPUBLISHED else 1, own[0] or b"", own[1] or b"")
+        best = min(rank(m) for m in members)
+        pool = [m for m in members if rank(m) == best]
         if len(pool) == 1:
             win = pool[0]
         else:
+            # same library and module name twice: the code keeps the one loaded first
             cands = [(m // STRIDE - 1, c.recs["types"][m]) for m in pool]
             pick = choose(tn, cands) if choose else 0
             win = pool[pick if pick is not None else 0]
